@@ -31,9 +31,13 @@ if [ ! -x "$VERIF/bin/simrewrite" ] || [ "$VERIF/tools/simrewrite/main.go" -nt "
 fi
 
 # drop stale build dirs (other tree hashes)
+# (a build dir in use by a running check holds a shared lock on its .inuse file)
 for d in "$ROOT"/*/; do
   [ -d "$d" ] || continue
   [ "${d%/}" = "$DIR" ] && continue
+  if [ -f "${d}.inuse" ]; then
+    ( exec 7<"${d}.inuse"; flock -n -x 7 ) || continue
+  fi
   rm -rf "$d"
 done
 
@@ -48,7 +52,7 @@ if [ ! -f "$DIR/.ok-src" ]; then
   done
   log "instrumenting"
   "$VERIF/bin/simrewrite" -dir "$DIR/src" >"$DIR/rewrite.log" 2>&1 || { cat "$DIR/rewrite.log" >&2; log "instrumenter failed"; exit 2; }
-  touch "$DIR/.ok-src"
+  touch "$DIR/.inuse" "$DIR/.ok-src"
 fi
 
 case "$VARIANT" in
